@@ -2364,7 +2364,7 @@ func (p *Parser) parseDimensions() (Dimensions, error) {
 		dimensions = append(dimensions, d)
 
 		// If there's not a comma next then stop parsing dimensions.
-		if tok, _, _ := p.Scan(); tok != COMMA {
+		if tok, _, _ := p.ScanIgnoreWhitespace(); tok != COMMA {
 			p.Unscan()
 			break
 		}
